@@ -4,7 +4,7 @@
 //! found it). A snippet may be guarded by one calldata byte, so one world supports many
 //! different transactions; calldata is forwarded (optionally shifted) to callees.
 use crate::core::Rng;
-use revm::primitives::{keccak256, Address, Bytes, SpecId, B256, U256};
+use crate::itp::primitives::{keccak256, Address, Bytes, SpecId, B256, U256};
 
 pub mod op {
     pub const STOP: u8 = 0x00;
